@@ -34,6 +34,16 @@ LEMMAS = {
     "lemma_mutex_step": ("L-MUTEX", ["C17"]),
     # whole-history induction over all finite sequences of reference steps
     "lemma_hstep_preserves": ("H-STEP", ["C01", "C02", "C03", "C08", "C10"]),
+    "lemma_hstep_send": ("H-STEP.send", ["C01", "C02", "C08"]),
+    "lemma_hstep_send_register": ("H-STEP.send-register", ["C01", "C02"]),
+    "lemma_hstep_recv": ("H-STEP.recv", ["C01", "C02"]),
+    "lemma_hstep_recv_register": ("H-STEP.recv-register", ["C01", "C02"]),
+    "lemma_hstep_cancel_sender": ("H-STEP.cancel-sender", ["C01", "C02"]),
+    "lemma_hstep_cancel_receiver": ("H-STEP.cancel-receiver", ["C01", "C02"]),
+    "lemma_hstep_close": ("H-STEP.close", ["C01", "C10"]),
+    "lemma_hstep_clone": ("H-STEP.clone", ["C01"]),
+    "lemma_hstep_drop_sender": ("H-STEP.drop-sender", ["C01", "C02"]),
+    "lemma_hstep_drop_receiver": ("H-STEP.drop-receiver", ["C01", "C02"]),
     "lemma_H_INV": ("H-INV", ["C01", "C02", "C03", "C08", "C10"]),
     "lemma_cap_constant": ("H-CAP", ["C08"]),
     # glue U2 (proved) ==> U1 (assumed), contracts/glue_u1_u2.rs
@@ -98,8 +108,9 @@ def weave(here, repo, unit, out_rs, out_map, vacuity=False, localise=False):
 def run_verus(rs, seed=None, rlimit=None, threads=16):
     cmd = ["verus", os.path.basename(rs), "--cfg", 'feature="async"', "--multiple-errors", "200",
            "--num-threads", str(threads), "--output-json", "--time", "--error-format=json"]
-    if rlimit:
-        cmd += ["--rlimit", str(rlimit)]
+    # default budget doubled (20): the heaviest proof uses about a tenth of it, so a perturbed SMT context does not
+    # turn into a spurious "rlimit exceeded" (which would be exit 2)
+    cmd += ["--rlimit", str(rlimit or 20)]
     if seed is not None:
         cmd += ["--smt-option", "smt.random_seed=%d" % (seed % 100000)]
     t0 = time.time()
@@ -370,7 +381,7 @@ def verify_unit(here, repo, unit, tmp, seed, tier):
     with concurrent.futures.ThreadPoolExecutor(max_workers=3) as ex:
         f1 = ex.submit(run_verus, rs, None, None, 8)
         f2 = ex.submit(run_verus, vrs, None, None, 8)
-        f3 = ex.submit(run_verus, rs, seed + 7919, 40, 8) if tier == "thorough" else None
+        f3 = ex.submit(run_verus, rs, seed + 7919, 80, 8) if tier == "thorough" else None
         res, vres = f1.result(), f2.result()
         res2 = f3.result() if f3 else None
     rs_text = open(rs).read()
